@@ -19,7 +19,13 @@ RULE = ("AVL: every insertion order of 1..7 distinct keys (each followed by a re
         "forced to grow) and without; hash table: random histories over table sizes 8/11/16/default 10007 with an "
         "all-collide hash, a 4-bucket hash, identity, multiplicative and the library's default string hash; trie: random "
         "histories over byte strings drawn from 1..255 (shared prefixes, empty key, bytes >= 0x80) and a full-alphabet "
-        "sweep.  A case is non-trivial when it contains an accepted insertion and a later accepted removal, rejected "
+        "sweep; EVERY removal (tree, table, trie) with a per-operation choice of free callbacks (key and value separately; NULL "
+        "= borrowed data released by the caller) and an ownership line counting the callback calls; comparators whose result has "
+        "the magnitude -1/0/1, the clamped difference, INT_MIN/INT_MAX or +-256 (per case); large trees by quiet operations with a "
+        "full dump + structure walk every N/8 operations (300/450/640 nodes quick; up to 5000 thorough, node pool forced to grow "
+        "from 4 / 64); trie keys of 20..80 bytes in every 16th random case; string-keyed table with bytes >= 0x80 in the keys "
+        "(kind defb) and table sizes 11/13/1000/10007 with 64-bit hashes; muggle_hash_table_clear (any callbacks) followed by "
+        "reuse.  A case is non-trivial when it contains an accepted insertion and a later accepted removal, rejected "
         "duplicate or successful lookup; distinct = distinct script text")
 TRUSTED_BASE = [
     "pointer structure: heap-level models (ModelHeap.v) of the AVL tree (left/right/parent) and the hash chains "
@@ -31,10 +37,13 @@ TRUSTED_BASE = [
     "comparator is the total order on int64 (strcmp for the string-keyed table)",
 ]
 ASSUMPTIONS = [
+    "second tie: clang 14's AST of the three .c files with -DNDEBUG (MUGGLE_ASSERT empty); plain char is signed (x86-64)",
     "comparator is a strict total order consistent with the hash (keys are int64 / decimal strings in the drivers)",
     "stored values are non-NULL (a NULL value is indistinguishable from 'absent' in the trie API)",
     "trie keys are NUL-terminated byte strings (bytes 1..255); allocation succeeds",
     "remove is given a node obtained from find on the same container (the documented usage)",
+    "a NULL free callback means the data is borrowed: the library must neither release nor keep it; the driver releases it",
+    "the comparator is any function whose SIGN is the order (its magnitude is varied per case)",
 ]
 EVIDENCE_NOTES = [
     "PROVED in Coq, unbounded (coverage.theorems).  Functional models: avl_inv_insert, avl_inv_remove, avl_inv_history "
@@ -67,16 +76,45 @@ EVIDENCE_NOTES = [
     "operation; the driver walks parent links / chain links / bucket membership of the REAL nodes after every "
     "operation); the memory-pool variant (node recycling, pool growth); release of user keys/values through the free "
     "callbacks (ASan + live-block count at destroy); the int8_t width of the balance field",
-    "hash function / table index tie: s_muggle_default_str_hash_func (a while loop over a char*) and the index "
-    "computation (an expression inside muggle_hash_table_find/put, which loop and call through function pointers) are "
-    "NOT leaf integer functions, so lib/leaftrans.py (no loops, no calls, no pointer dereference) cannot translate them. "
-    "Instead the drivers expose them: 'hash k' prints table->hash(key) (the library's default string hash for kind def) "
-    "and 'where k' the index of the bucket whose chain holds the key; both are compared with the model (Model.str_hash, "
-    "ht_idx): a change of either shows up as a broken correspondence (the monitor only checks that 'where' answers "
-    "none exactly for absent keys, since neither value is part of the property)",
+    "SECOND TIE (translator, DESIGN.md 4.4; coq/gen/Params_C09.v regenerated on every run, obligations gen_*_matches_model): "
+    "lib/props/c09_slice.py executes ONE SEGMENT of a public function symbolically over clang's JSON AST (file-local calls "
+    "inlined, pointer fields read lazily as named objects, NULL tests / pointer comparisons as facts, tests that do not "
+    "influence the outcome merged away) and lib/props/c09_ties.py names inputs and outcomes: AVL — one iteration of the "
+    "retracing loops of insert and of remove INCLUDING rebalance and the four rotations (new balance fields of the node, its "
+    "children and inner grandchildren, which rotation, continue / stop, side carried upward; the two side codes are read off "
+    "the sliced code), the comparator dispatch of find, one descent step of insert (duplicate / descend / link with parent "
+    "link, balance 0 and side), the entry of remove (swap on / tree emptied / unlink side and start of retracing); hash table — "
+    "bucket index of find and put (hash % table_size), one chain step of find and put (duplicate rejected before linking, new "
+    "node linked at the head with prev/next/key/value), init (NULL comparator, capacity >= 2^31, table size < 8 -> 10007, node "
+    "pool iff capacity > 0); trie — the empty-key slot children[0], end-of-key test, child index = (unsigned char) of the key "
+    "byte at the read and at the store, array size 256.  Each definition is proved equal to a named decision function of "
+    "Model.v by shape-independent case analysis + lia under time limits (C09/ProofsGen.v), and the functional and heap-level "
+    "models are proved to factor through these functions (avl_*_factors, havl_*_factors, avl_grow_is_ins_step, "
+    "avl_shrink_is_rem_step, ht_*/trie_* factors).  Anything the slicer cannot follow is a comment in Params_C09.v and breaks "
+    "the obligation (tried: 29 semantic edits all break the targeted obligation; the stored rewrites C09-A..D and three "
+    "hand-made ones stay green)",
+    "still only covered by the differential run: s_muggle_default_str_hash_func (a loop over a char*; 'hash k' is compared "
+    "with Model.str_hash), the pointer splicing itself (proved on ModelHeap.v, compared by the driver walk), assumptions of "
+    "the slicer: malloc / pool allocation succeed, distinct access paths below a node denote distinct nodes, "
+    "parent->right == node iff not parent->left == node for a linked node",
     "DEFECT found on the unchanged tree by this check (VIOLATION with replay, see corpus/C09/trie-high-byte-*.case): "
     "trie.c indexed children[(int)(*p)] with a signed char; repaired by fixes/C09-trie-unsigned-index.patch (applied), "
     "the model and trie_refines_map describe the repaired code",
+    "FREE CALLBACKS / CLEAR (audit follow-up): Model.v has operations with the caller's choice of callbacks (opf, *_step_cb, "
+    "runf) and ht_clear_cb; PROVED for every choice (ProofsCb.v): avl_refines_map_cb, ht_refines_map_cb, trie_refines_map_cb "
+    "(every history answers like the reference map, 'released through the callback' exactly when the key was bound and the "
+    "callback was passed, and the state equals the callback-free model's), avl_remove_exact_for_every_callback_choice, "
+    "ht_clear_then_reuse (after any history clear empties the table, one callback call per stored entry iff passed, every later "
+    "history is answered like a fresh table).  Tied to the code (a) by the drivers: counting callbacks, the 'own' line after every "
+    "removal, ASan on the caller's own release when NULL was passed, and (b) by the slicer: gen_ht_remove_matches_model, "
+    "gen_trie_remove_matches_model and the callback part of gen_avl_rem_enter_matches_model (the node is unlinked / its data "
+    "cleared whatever the callbacks are; a guard on the callbacks in front of the unlink makes the outcome depend on a fact the "
+    "tie does not have and breaks the obligation).  The audit's edit E2 (node->data = NULL moved under if (func_free)) and the "
+    "sibling guards in hash_table_remove / avl erase_node are reported with a failing input (corpus-*-null-callback*)",
+    "observation (not a violation, outside the operation alphabet insert/find/remove): muggle_avl_tree_clear releases the nodes "
+    "but leaves tree->root dangling on the unchanged tree, so any operation after it is a use-after-free; the drivers therefore "
+    "do NOT issue clear on the tree.  muggle_hash_table_clear + reuse is driven and modelled (passes on the unchanged tree); the "
+    "trie has no clear.  Heap-level (pointer) model of clear: not done",
     "return value of muggle_trie_remove (true iff the node exists, even with no data) is compared with the model but "
     "not constrained by the monitor for absent keys: the header leaves it unspecified (theorem side: [obs])",
     "observation (not a violation): muggle_trie_remove calls func_free(pool, NULL) for a key that is absent but whose "
@@ -84,6 +122,29 @@ EVIDENCE_NOTES = [
 ]
 
 BIG = 1 << 62
+
+
+# --------------------------------------------------------------------------
+# second tie (DESIGN.md 4.4): the decision content of the three files, sliced out of the C text of this run
+# by lib/props/c09_slice.py (symbolic execution of one segment of a public function over clang's JSON AST) as
+# specified in lib/props/c09_ties.py; coq/C09/ProofsGen.v proves each definition equal to the model's named
+# decision function (Model.v) by shape-independent case analysis + lia.
+
+def gen_params(ctx):
+    import os
+    V.gen_config_header()
+    from props import c09_ties as T
+    flags = ["-std=gnu11", "-I" + V.REPO, "-I" + V.GEN_INC, "-DNDEBUG"]
+    lines = ["(* generated by lib/props/c09.py (c09_slice.py / c09_ties.py) from muggle/c/dsaa/{avl_tree,hash_table,trie}.c",
+             "   of this run; do not edit.  A tie that could not be sliced is a comment with the reason: the",
+             "   obligation of C09/ProofsGen.v that mentions its definition then fails to compile. *)",
+             "From Coq Require Import ZArith Bool.", "From MV Require Import Lib.Leaf.",
+             "Local Open Scope Z_scope.", ""]
+    try:
+        lines += T.generate(V.REPO, flags)
+    except Exception as e:       # a broken slicer must break the obligations, not the machinery
+        lines.append("(* slicer failure: %s: %s *)" % (type(e).__name__, str(e)[:300].replace("*)", "* )")))
+    return "\n".join(lines) + "\n"
 
 
 # --------------------------------------------------------------------------
@@ -184,8 +245,18 @@ def _bfs_keys(shape, scale=10):
 # --------------------------------------------------------------------------
 # cases
 
-def _avl_case(name, cap, ops):
-    return V.Case(name, ["avl %d" % cap] + ops, {"kind": "avl"})
+CMPS = ["sgn", "diff", "big", "m256"]
+
+
+def _avl_case(name, cap, ops, cmpk=None):
+    return V.Case(name, ["avl %d" % cap + (" " + cmpk if cmpk else "")] + ops, {"kind": "avl"})
+
+
+def _flags(rng, n=2):
+    """free callbacks of one removal: mostly both passed, else an explicit choice (0 = NULL: borrowed data)"""
+    if rng.chance(3, 5):
+        return ""
+    return "".join(" %d" % rng.below(2) for _ in range(n))
 
 
 def _perm_ops(ins_order, rem_order, scale=10, finds=True):
@@ -209,14 +280,39 @@ def _rand_avl(rng, name, R, nops, cap, extreme=False):
             vi += 1
             ops.append("ins %d %d" % (k, 100000 + vi))
         elif c < 80:
-            ops.append("rem %d" % k)
+            ops.append("rem %d%s" % (k, _flags(rng)))
         else:
             ops.append("find %d" % k)
-    return _avl_case(name, cap, ops)
+    return _avl_case(name, cap, ops, rng.choice(CMPS + [None, None]))
 
 
-def _ht_case(name, cap, size, kind, ops):
-    return V.Case(name, ["ht %d %d %s" % (cap, size, kind)] + ops, {"kind": "ht"})
+def _big_avl(rng, name, N, cap):
+    """a tree of N nodes and more: quiet operations (result + ownership line only) with a full dump, BST /
+    balance / parent-link walk after every ~N/8 operations"""
+    keys = rng.shuffle(range(1, 2 * N + 1))[:N]
+    ops, every, cnt = [], max(8, N // 8), [0]
+
+    def tick(op):
+        ops.append(op)
+        cnt[0] += 1
+        if cnt[0] % every == 0:
+            ops.append("check")
+    for k in keys:
+        tick("insq %d %d" % (k * 3, k + 7))
+    ops.append("check")
+    for k in rng.shuffle(keys)[:N // 2]:
+        tick("remq %d%s" % (k * 3, _flags(rng)))
+        if rng.chance(1, 6):
+            tick("insq %d %d" % (k * 3 + 1, k))
+    for k in rng.shuffle(keys)[:N // 4]:
+        tick("insq %d %d" % (k * 3, k + 9))        # half of them duplicates
+    ops.append("check")
+    ops += ["find %d" % (keys[0] * 3), "rem %d 0 0" % (keys[1] * 3), "rem %d" % (keys[2] * 3)]
+    return _avl_case(name, cap, ops, rng.choice(CMPS))
+
+
+def _ht_case(name, cap, size, kind, ops, cmpk=None):
+    return V.Case(name, ["ht %d %d %s" % (cap, size, kind) + (" " + cmpk if cmpk else "")] + ops, {"kind": "ht"})
 
 
 def _rand_ht(rng, name, cap, size, kind, R, nops):
@@ -231,17 +327,19 @@ def _rand_ht(rng, name, cap, size, kind, R, nops):
             vi += 1
             ops.append("put %d %d" % (k, 500000 + vi))
         elif c < 75:
-            ops.append("rem %d" % k)
-        elif c < 89:
+            ops.append("rem %d%s" % (k, _flags(rng)))
+        elif c < 88:
             ops.append("find %d" % k)
-        elif c < 93:
+        elif c < 92:
             ops.append("where %d" % k)
-        elif c < 96:
+        elif c < 95:
             ops.append("hash %d" % k)
+        elif c < 97:
+            ops.append("clear%s" % _flags(rng))       # muggle_hash_table_clear, then the table is used again
         else:
             ops.append("dump")
     ops.append("dump")
-    return _ht_case(name, cap, size, kind, ops)
+    return _ht_case(name, cap, size, kind, ops, rng.choice(CMPS + [None, None]))
 
 
 def _hex(bs):
@@ -272,7 +370,7 @@ def _rand_trie(rng, name, cap, alphabet, maxlen, nops):
             vi += 1
             ops.append("ins %s %d" % (_hex(k), 700000 + vi))
         elif c < 70:
-            ops.append("rem %s" % _hex(k))
+            ops.append("rem %s%s" % (_hex(k), _flags(rng, 1)))
         elif c < 96:
             ops.append("find %s" % _hex(k))
         else:
@@ -314,6 +412,20 @@ def corpus_cases(ctx):
         _trie_case("corpus-trie-high-bytes", 0, ["ins 80 1", "ins ff 2", "ins c3a9 3", "ins 7f80 4", "find 80", "find ff",
                                                  "find c3a9", "find c3", "rem ff", "find ff", "dump"]),
         _trie_case("corpus-trie-high-bytes-pool", 2, ["ins e4b8ad 1", "find e4b8ad", "ins e4b8 2", "rem e4b8ad", "dump"]),
+        # NULL free callbacks (borrowed data): the association must go all the same
+        _trie_case("corpus-trie-null-callback", 0, ["ins 6162 1", "ins 61 2", "rem 61 0", "find 61", "rem 61 0", "rem 6162 1",
+                                                    "find 6162", "ins 61 3", "rem 61", "dump"]),
+        _avl_case("corpus-avl-null-callbacks", 2, ["ins 20 1", "ins 10 2", "ins 30 3", "ins 5 4", "rem 20 0 0", "find 20",
+                                                   "rem 10 0 1", "rem 30 1 0", "rem 5", "rem 5 0 0", "ins 20 5", "find 20"], "diff"),
+        _avl_case("corpus-avl-cmp-magnitudes", 0, ["ins 0 1", "ins 256 2", "ins -256 3", "ins 4294967296 4", "find 256",
+                                                   "find 4294967296", "ins 256 9", "rem 0", "find -256",
+                                                   "ins %d 5" % ((1 << 63) - 1), "ins %d 6" % (-(1 << 63)),
+                                                   "find %d" % (-(1 << 63))], "m256"),
+        _ht_case("corpus-ht-null-callbacks-clear", 2, 8, "zero", ["put 1 11", "put 2 12", "put 3 13", "rem 2 0 0", "find 2",
+                                                                  "rem 1 0 1", "put 4 14", "clear 0 1", "find 3", "put 3 15",
+                                                                  "put 1 16", "clear", "put 1 17", "dump"], "big"),
+        _ht_case("corpus-ht-high-byte-strings", 0, 11, "defb", ["put 17 1", "put -17 2", "put 123456789 3", "hash 17",
+                                                                "hash 123456789", "where -17", "find 17", "rem 17", "dump"]),
     ]
 
 
@@ -376,9 +488,14 @@ def generate(rng, tier):
         cases.append(_avl_case("avl-asc-%d" % N, 0, asc + ["rem %d" % k for k in range(N)]))
         cases.append(_avl_case("avl-asc-desc-%d" % N, 4, asc + ["rem %d" % k for k in range(N - 1, -1, -1)]))
         cases.append(_avl_case("avl-desc-mid-%d" % N, 0, desc + ["rem %d" % (k + 1) for k in mid]))
-    # --- hash table
+    # --- AVL: large trees (hundreds of nodes in quick, >= 3000 in thorough), quiet operations + periodic full walk
+    for i, N in enumerate((300, 450, 640) if quick else (300, 640, 1500, 3100, 5000)):
+        cases.append(_big_avl(rng, "avl-big-%d" % N, N, (0, 4, 64)[i % 3]))
+    # --- hash table (table sizes that do not divide 2^32 with hashes >= 2^32: 11/13/1000/10007 with mul, id on
+    #     keys >= 2^32; string keys with bytes >= 0x80: defb)
     cfgs = [(8, "zero"), (8, "low"), (8, "id"), (8, "mul"), (8, "def"), (0, "id"), (0, "def"), (11, "mul"),
-            (16, "low"), (7, "zero"), (1000, "def"), (9, "id")]
+            (16, "low"), (7, "zero"), (1000, "def"), (9, "id"), (8, "defb"), (13, "mul"), (1000, "defb"), (0, "mul"),
+            (11, "id"), (0, "defb")]
     for i in range(240 if quick else 4000):
         size, kind = cfgs[i % len(cfgs)]
         R = rng.choice([4, 8, 16, 30, 64])
@@ -396,7 +513,11 @@ def generate(rng, tier):
         else:
             alpha = list(range(1, 256))
         nops = rng.range(8, 90 if quick else 300)
-        cases.append(_rand_trie(rng, "trie-rnd-%d" % i, rng.choice([0, 0, 1, 3]), alpha, rng.range(1, 5), nops))
+        maxlen = rng.range(1, 5)
+        if i % 16 == 15:
+            maxlen = rng.range(20, 80)       # long keys (a fixed-size key buffer in the library would show)
+            nops = min(nops, 40)
+        cases.append(_rand_trie(rng, "trie-rnd-%d" % i, rng.choice([0, 0, 1, 3]), alpha, maxlen, nops))
     # full alphabet sweep: every single byte, and two-byte keys (b, 256-b)
     for cap in (0, 2):
         ops = ["ins %02x %d" % (b, b) for b in range(1, 256)]
@@ -475,7 +596,16 @@ def _expect(lines, i, want, what):
     return None
 
 
+def _cb_flags(w, first, n=2):
+    """callback flags of a removal (default: all passed)"""
+    fl = [x != "0" for x in w[first:first + n]]
+    return fl if len(fl) == n else [True] * n
+
+
 def monitor(case, lines):
+    """dict semantics + BST / balance check from the dump + the ownership rule of the free callbacks: the key /
+    value block of a removed association goes through its callback exactly once iff a callback was passed
+    (the 'own' line counts the calls); with NULL callbacks the association must go all the same."""
     if not lines:
         return "no output"
     for ln in lines:
@@ -487,42 +617,70 @@ def monitor(case, lines):
     kind = head[0]
     ref = {}
     i = 1
+
+    def tree_lines(what):
+        tl = lines[i] if i < len(lines) else ""
+        if not tl.startswith("t"):
+            return "%s: no tree dump" % what
+        try:
+            got = {}
+            _check_tree(_parse_tree(tl.split()[1:]), None, None, got)
+        except ValueError as ex:
+            return "%s: %s" % (what, ex)
+        if got != ref:
+            miss = sorted(set(ref) - set(got))[:3]
+            extra = sorted(set(got) - set(ref))[:3]
+            wrong = sorted(k2 for k2 in ref if k2 in got and got[k2] != ref[k2])[:3]
+            return "%s: tree contents differ from the map (missing %s, unexpected %s, wrong value %s)" % (what, miss, extra, wrong)
+        if _expect(lines, i + 1, "chk ok", what + " structure walk"):
+            return "%s: driver walk of the real nodes: %r" % (what, lines[i + 1] if i + 1 < len(lines) else None)
+        return None
     for n, op in enumerate(case.lines[1:], 1):
         w = op.split()
         what = "op %d (%s)" % (n, op)
         if kind == "avl":
+            if w[0] == "check":
+                e = tree_lines(what)
+                if e:
+                    return e
+                i += 2
+                continue
             k = int(w[1])
-            if w[0] == "ins":
+            quiet = w[0] in ("insq", "remq")
+            own = None
+            if w[0] in ("ins", "insq"):
                 want = "ins 0" if k in ref else "ins 1"
                 ref.setdefault(k, int(w[2]))
             elif w[0] == "find":
                 want = "find %s" % (ref[k] if k in ref else "none")
             else:
+                fk, fv = _cb_flags(w, 2)
                 want = "rem %d" % (1 if k in ref else 0)
+                own = "own %d %d" % ((1 if fk else 0, 1 if fv else 0) if k in ref else (0, 0))
                 ref.pop(k, None)
             e = _expect(lines, i, want, what)
             if e:
                 return e
-            tl = lines[i + 1] if i + 1 < len(lines) else ""
-            if not tl.startswith("t"):
-                return "%s: no tree dump" % what
-            try:
-                got = {}
-                _check_tree(_parse_tree(tl.split()[1:]), None, None, got)
-            except ValueError as ex:
-                return "%s: %s" % (what, ex)
-            if got != ref:
-                miss = sorted(set(ref) - set(got))[:3]
-                extra = sorted(set(got) - set(ref))[:3]
-                wrong = sorted(k2 for k2 in ref if k2 in got and got[k2] != ref[k2])[:3]
-                return "%s: tree contents differ from the map (missing %s, unexpected %s, wrong value %s)" % (what, miss, extra, wrong)
-            e = _expect(lines, i + 2, "chk ok", what + " structure walk")
-            if e:
-                return "%s: driver walk of the real nodes: %r" % (what, lines[i + 2] if i + 2 < len(lines) else None)
-            i += 3
+            i += 1
+            if own is not None:
+                e = _expect(lines, i, own, what + " ownership (callback calls for the removed key / value)")
+                if e:
+                    return e
+                i += 1
+            if not quiet:
+                e = tree_lines(what)
+                if e:
+                    return e
+                i += 2
         elif kind == "ht":
+            own = None
             if w[0] == "dump":
                 want = " ".join(["d"] + ["%d=%d" % kv for kv in sorted(ref.items())])
+            elif w[0] == "clear":
+                fk, fv = _cb_flags(w, 1)
+                want = "clear %d" % len(ref)
+                own = "own %d %d" % (len(ref) if fk else 0, len(ref) if fv else 0)
+                ref.clear()
             elif w[0] in ("hash", "where"):
                 # the hash value and the bucket index are not part of the property: they are compared
                 # between model and implementation only (the tie of Model.str_hash / ht_idx to the
@@ -544,15 +702,23 @@ def monitor(case, lines):
                 elif w[0] == "find":
                     want = "find %s" % (ref[k] if k in ref else "none")
                 else:
+                    fk, fv = _cb_flags(w, 2)
                     want = "rem %d" % (1 if k in ref else 0)
+                    own = "own %d %d" % ((1 if fk else 0, 1 if fv else 0) if k in ref else (0, 0))
                     ref.pop(k, None)
             e = _expect(lines, i, want, what)
             if e:
                 return e
-            e = _expect(lines, i + 1, "chk ok n=%d" % len(ref), what + " chain walk")
+            i += 1
+            if own is not None:
+                e = _expect(lines, i, own, what + " ownership (callback calls for the removed keys / values)")
+                if e:
+                    return e
+                i += 1
+            e = _expect(lines, i, "chk ok n=%d" % len(ref), what + " chain walk")
             if e:
                 return e
-            i += 2
+            i += 1
         else:
             if w[0] == "dump":
                 got = {}
@@ -574,12 +740,17 @@ def monitor(case, lines):
                 elif w[0] == "find":
                     e = _expect(lines, i, "find %s" % (ref[k] if k in ref else "none"), what)
                 else:
+                    (f,) = _cb_flags(w, 2, 1)
                     e = None
+                    own = "own %d" % (1 if (f and k in ref) else 0)
                     if k in ref:
                         e = _expect(lines, i, "rem 1", what)
                         del ref[k]
                     elif (lines[i] if i < len(lines) else None) not in ("rem 0", "rem 1"):
                         e = "%s: answered %r" % (what, lines[i] if i < len(lines) else None)
+                    if not e:
+                        i += 1
+                        e = _expect(lines, i, own, what + " ownership (callback calls for the removed value)")
                 if e:
                     return e
             i += 1
@@ -608,9 +779,17 @@ def tally(dist, case, lines):
         dist[key] = dist.get(key, 0) + 1
     if int(head[1]) > 0:
         dist["with_node_pool"] = dist.get("with_node_pool", 0) + 1
+    ck = head[2] if (kind == "avl" and len(head) > 2) else (head[4] if (kind == "ht" and len(head) > 4) else "sgn")
+    if kind != "trie":
+        dist["cmp_" + ck] = dist.get("cmp_" + ck, 0) + 1
     for op in case.lines[1:]:
-        key = "%s_%s" % (kind, op.split()[0])
+        ww = op.split()
+        key = "%s_%s" % (kind, ww[0])
         dist[key] = dist.get(key, 0) + 1
+        if ww[0] in ("rem", "remq", "clear") and "0" in ww[(1 if ww[0] == "clear" else 2):]:
+            dist["removal_with_a_NULL_callback"] = dist.get("removal_with_a_NULL_callback", 0) + 1
+        if kind == "trie" and len(ww) > 1 and len(ww[1]) >= 80:
+            dist["trie_keys_ge_40_bytes"] = dist.get("trie_keys_ge_40_bytes", 0) + 1
     for ln in lines:
         if ln in ("ins 0", "put 0"):
             dist["duplicate_rejected"] = dist.get("duplicate_rejected", 0) + 1
@@ -643,7 +822,8 @@ MANIFEST = {
                    "functional models with consistent links for every history of operations (rotations, rebalance, insert, the "
                    "data-swap loop / unlink / retracing of remove, all hash-table operations)."),
     "design_ref": "DESIGN.md section 6 / C09",
-    "level_note": ("Trusted: Coq kernel, extraction (ExtrOcamlBasic), the differential harness.  Pointer structure (parent links, "
+    "level_note": ("Trusted: Coq kernel, extraction (ExtrOcamlBasic), the differential harness, the slicer/translator of the "
+                   "second tie (lib/props/c09_slice.py, c09_ties.py; its output is proved equal to the model's decision functions).  Pointer structure (parent links, "
                    "chain splicing) is proved on hand-transcribed heap models and checked on the real nodes by the driver; "
                    "allocation is assumed to succeed."),
     "technique": ("Coq proof of invariant preservation and map refinement (structural induction); heap-level pointer models "
